@@ -33,7 +33,7 @@ HBIN = os.path.join(HARNESS, "target", "debug", "harness")
 ALLOWED_AXIOMS = {"propext", "Classical.choice", "Quot.sound"}
 
 sys.path.insert(0, os.path.join(VERIF, "tools"))
-from props import PROPS, PRIMS, TRUSTED_BASE  # noqa: E402
+from props import PROPS, PRIMS, TRUSTED_BASE, LOOM  # noqa: E402
 
 ENV = dict(os.environ, CARGO_NET_OFFLINE="true")
 
@@ -56,6 +56,70 @@ def build_harness():
         shutil.copy(lock_src, lock_dst)
     rc, out, err = sh(["cargo", "build", "--offline"], cwd=HARNESS)
     return rc == 0, (out + err)[-4000:], time.time() - t0
+
+
+LOOMH = os.path.join(VERIF, "loomh")
+LBIN = os.path.join(LOOMH, "target", "debug", "loomh")
+
+
+def build_loom():
+    t0 = time.time()
+    lock_src = os.path.join(REPO, "Cargo.lock")
+    lock_dst = os.path.join(LOOMH, "Cargo.lock")
+    if os.path.exists(lock_src) and not os.path.exists(lock_dst):
+        import shutil
+        shutil.copy(lock_src, lock_dst)
+    rc, out, err = sh(["cargo", "build", "--offline"], cwd=LOOMH)
+    return rc == 0, (out + err)[-4000:], time.time() - t0
+
+
+def run_loom(scenarios, tier):
+    """Runs loom scenarios in parallel; returns {name: (ok, seconds, output)}."""
+    import concurrent.futures
+    env = dict(ENV, RUST_BACKTRACE="0")
+    if tier == "thorough":
+        env["LOOMH_EXTRA_PREEMPTIONS"] = "1"
+    limit = 120 if tier == "quick" else 1800
+
+    def one(name):
+        t0 = time.time()
+        try:
+            p = subprocess.run([LBIN, name], capture_output=True, text=True, timeout=limit, env=env)
+            ok = p.returncode == 0 and ("ok " + name) in p.stdout
+            out = "\n".join(l for l in (p.stdout + p.stderr).splitlines()
+                            if l.strip() and not l.startswith("   ") and not l.startswith("stack backtrace"))
+            return name, (ok, round(time.time() - t0, 2), out[-3000:], False)
+        except subprocess.TimeoutExpired:
+            # not finishing within the budget is not a verdict
+            return name, (True, limit, "timeout after %ds: exploration incomplete" % limit, True)
+
+    with concurrent.futures.ThreadPoolExecutor(max_workers=8) as ex:
+        return dict(ex.map(one, scenarios))
+
+
+def run_miri(tier, seed):
+    """Memory-safety search (C15): the harness replays last-owner histories and a few random ones
+    under Miri (use after free, invalid drop order, leaks). A search aid, not a proof."""
+    ops = open(os.path.join(CORPUS, "miri_last_owner.txt")).read()
+    n, ln = (3, 25) if tier == "quick" else (25, 40)
+    for prim in ("mutex", "rwlock", "sem"):
+        rc, out, err = sh([HBIN, "random", prim, str(seed + 100), str(n), str(ln)])
+        ops += "".join(l.split(" || ")[0] + "\n" for l in out.splitlines())
+    os.makedirs(BUILD, exist_ok=True)
+    path = os.path.join(BUILD, "miri_input.txt")
+    open(path, "w").write(ops)
+    t0 = time.time()
+    env = dict(ENV, MIRIFLAGS="-Zmiri-disable-isolation", HARNESS_FLUSH="1")
+    p = subprocess.run(["cargo", "+nightly", "miri", "run", "--offline", "--bin", "harness", "--", "replay"],
+                       cwd=HARNESS, input=ops, capture_output=True, text=True, env=env, timeout=7200)
+    errs = [l for l in p.stderr.splitlines() if l.startswith("error")]
+    bad = p.returncode != 0 or any("Undefined Behavior" in e or "leaked" in e for e in errs)
+    # the history that was running: from the last `new` line of what was printed
+    lines = [l.split(" || ")[0] for l in p.stdout.splitlines() if " || " in l]
+    last_new = max([i for i, l in enumerate(lines) if l.startswith("new ")] or [0])
+    return {"ok": not bad, "ops": len(ops.splitlines()), "s": round(time.time() - t0, 1),
+            "errors": errs[:3], "history": lines[last_new:] + (["<the next operation is where Miri stopped>"] if bad else []),
+            "stderr_tail": "\n".join(l for l in p.stderr.splitlines() if not l.startswith("warning"))[-2500:] if bad else ""}
 
 
 def build_lean(targets):
@@ -475,6 +539,36 @@ def check(prop, tier, seed):
                                        broken="correspondence %s model <-> implementation" % prim)),
                                        "no-failing-input-found"))
 
+    # 4b. interleaving / weak-memory search on the implementation (loom): a search aid, not a proof
+    scen = LOOM.get(prop, [])
+    if scen:
+        ok_b, log_b, dt_b = build_loom()
+        cov["interleaving_search"] = {"tool": "loom 0.7.2 on the real crate (loomh/)", "build_s": round(dt_b, 1),
+                                      "scenarios": {}}
+        if not ok_b:
+            rp = write_replay(prop, "loom_build", {"property": prop, "kind": "correspondence",
+                              "what": "the loom scenarios no longer build against /repo", "log": log_b})
+            violations.append((rp, "no-failing-input-found"))
+        else:
+            for name, (ok, secs, out, timed_out) in run_loom(scen, tier).items():
+                cov["interleaving_search"]["scenarios"][name] = {"ok": ok, "s": secs, "incomplete": timed_out}
+                if not ok:
+                    rp = write_replay(prop, "loom_" + name, {"property": prop, "kind": "loom", "scenario": name,
+                                      "what": "loom found an interleaving of scenario %s (loomh/src/main.rs) on which the "
+                                              "implementation fails: %s" % (name, out.splitlines()[1] if len(out.splitlines()) > 1 else out[:200]),
+                                      "output": out, "cmd": "cd loomh && cargo build --offline && ./target/debug/loomh " + name})
+                    violations.append((rp, ""))
+
+    # 4c. memory-safety search under Miri (C15 only)
+    if spec.get("miri") and ok_h:
+        m = run_miri(tier, seed)
+        cov["memory_safety_search"] = {"tool": "cargo +nightly miri run (harness replay)", "ops": m["ops"], "s": m["s"], "ok": m["ok"]}
+        if not m["ok"]:
+            rp = write_replay(prop, "miri", {"property": prop, "kind": "miri", "history": m["history"],
+                              "what": "Miri reports %s while the harness executes this history" % (m["errors"][:1] or ["an error"])[0],
+                              "errors": m["errors"], "stderr_tail": m["stderr_tail"]})
+            violations.append((rp, ""))
+
     # 5. known findings / verdict
     known = load_known()
     real = []
@@ -668,6 +762,31 @@ def replay(path):
     data = json.load(open(path))
     if data.get("kind") == "row":
         return replay_row(data)
+    if data.get("kind") == "miri":
+        build_harness()
+        ops = "\n".join(h for h in data["history"] if not h.startswith("<")) + "\n"
+        # append every op of the corpus history that continues this prefix
+        corpus = open(os.path.join(CORPUS, "miri_last_owner.txt")).read().split("new ")
+        for c in corpus:
+            if c and ("new " + c).startswith(ops):
+                ops = "new " + c
+                break
+        env = dict(ENV, MIRIFLAGS="-Zmiri-disable-isolation", HARNESS_FLUSH="1")
+        p = subprocess.run(["cargo", "+nightly", "miri", "run", "--offline", "--bin", "harness", "--", "replay"],
+                           cwd=HARNESS, input=ops, capture_output=True, text=True, env=env)
+        print(p.stdout)
+        errs = [l for l in p.stderr.splitlines() if l.startswith("error")]
+        print("Miri on /repo's working tree:", errs[:2] if errs else "no error")
+        return 0
+    if data.get("kind") == "loom":
+        ok_b, log_b, _ = build_loom()
+        if not ok_b:
+            print(log_b)
+            return 1
+        res = run_loom([data["scenario"]], "quick")[data["scenario"]]
+        print("scenario %s on /repo's working tree: %s (%.1fs)" % (data["scenario"], "passes" if res[0] else "FAILS", res[1]))
+        print(res[2])
+        return 0
     hist = data.get("history")
     if not hist:
         print(json.dumps(data, indent=1)[:4000])
@@ -696,7 +815,13 @@ def setup():
     print("harness build:", "ok" if ok_h else "FAILED", "%.1fs" % dt)
     if not ok_h:
         print(log_h)
-    return 0 if ok_l and ok_h else 1
+    ok_b, log_b, dt = build_loom()
+    print("loom scenarios build:", "ok" if ok_b else "FAILED", "%.1fs" % dt)
+    if not ok_b:
+        print(log_b)
+    rc, out, err = sh(["cargo", "+nightly", "miri", "setup"], cwd=HARNESS)
+    print("miri sysroot:", "ok" if rc == 0 else "FAILED (C15's Miri search will report it)")
+    return 0 if ok_l and ok_h and ok_b else 1
 
 
 def main():
